@@ -4,6 +4,7 @@
    FriProof).  A change of a constant, a comparison or a shift in the source changes the generated term and
    breaks one of these equalities.  Property C12. *)
 From VBase Require Import MachInt.
+From Coq Require Import Btauto.
 From VGen Require Serde Limits.
 From VModel Require Import Codec.
 From VProofs Require Import CodecPrim CodecTypes.
@@ -143,14 +144,19 @@ Proof.
   unfold Limits.lim_MAX_NUM_QUERIES, Limits.lim_MIN_BLOWUP_FACTOR, Limits.lim_MAX_BLOWUP_FACTOR,
     Limits.lim_MAX_GRINDING_FACTOR, Limits.lim_FRI_MIN_FOLDING_FACTOR, Limits.lim_FRI_MAX_FOLDING_FACTOR,
     Limits.lim_FRI_MAX_REMAINDER_DEGREE.
-  change Limits.is_pow2 with Codec.is_pow2. rewrite <- !andb_assoc.
-  assert (E : (rd + 1 <=? usize_max) && (Codec.is_pow2 (rd + 1) && (rd <=? 255)) =
-              in_u 64 (rd + 1) && (Codec.is_pow2 (wrap 64 (rd + 1)) && (rd <=? 255))).
+  change Limits.is_pow2 with Codec.is_pow2.
+  (* robust to a reordering of the asserts in the source: both sides are conjunctions of the same atoms (btauto) once
+     the two atoms about `rd + 1` are identified *)
+  assert (EA : in_u 64 (rd + 1) = (rd + 1 <=? usize_max)).
   { unfold in_u, usize_max. change (2 ^ 64 - 1) with 18446744073709551615.
     destruct (Z.leb_spec 0 (rd + 1)); [|lia].
-    destruct (Z.leb_spec (rd + 1) 18446744073709551615); destruct (Z.ltb_spec (rd + 1) (2 ^ 64)); try lia.
-    all: try (rewrite wrap_small by lia); reflexivity. }
-  rewrite E. reflexivity.
+    destruct (Z.leb_spec (rd + 1) 18446744073709551615); destruct (Z.ltb_spec (rd + 1) (2 ^ 64)); try lia; reflexivity. }
+  assert (EB : (rd + 1 <=? usize_max) = true -> Codec.is_pow2 (wrap 64 (rd + 1)) = Codec.is_pow2 (rd + 1)).
+  { intros H. apply Z.leb_le in H. unfold usize_max in H. rewrite wrap_small by lia. reflexivity. }
+  rewrite EA. destruct (rd + 1 <=? usize_max) eqn:HA.
+  - rewrite (EB eq_refl).
+    match goal with |- (if ?a then _ else _) = (if ?b then _ else _) => replace a with b by btauto end. reflexivity.
+  - match goal with |- (if ?a then _ else _) = (if ?b then _ else _) => replace a with b by btauto end. reflexivity.
 Qed.
 
 (* TraceInfo::new_multi_segment; a Vec<u8> is seen by the checks through its length *)
